@@ -2,19 +2,20 @@ package c18
 
 import (
 	"fmt"
+	"time"
 
 	"github.com/buildbarn/go-xdr/pkg/protocols/nfsv4"
 
 	"verif/internal/ev"
 )
 
-const numScenarios = 14
+const numScenarios = 15
 
 var scenarioNames = [numScenarios]string{
 	"io-across-close", "downgrade-vs-lock-clone", "reregistration", "expiry-with-locks",
 	"unlinked-open", "locks-held-on-free", "io-across-reregistration-and-expiry", "io-across-downgrade",
 	"unconfirmed-open-owner", "two-versions-one-file", "hostile-battery", "random",
-	"reclaim-matrix", "shared-lock-owner",
+	"reclaim-matrix", "shared-lock-owner", "open-in-flight",
 }
 
 // afterStep runs the quiescent-point oracles.
@@ -23,7 +24,9 @@ func (h *hist) afterStep(when string) {
 		return
 	}
 	checkBalances(h.w, []*hist{h}, when)
-	checkCounts(h.w, []*hist{h}, when)
+	if !h.openParked {
+		checkCounts(h.w, []*hist{h}, when)
+	}
 }
 
 // runStepped executes one deterministic multi-client history.
@@ -491,6 +494,65 @@ func (h *hist) scenario(n int) {
 			return
 		}
 		h.io(c, ioWrite, la.sid, fhLeaf(a.leaf), "lock-state-id-after-release-attempt")
+	case 14: // OPEN in flight: held inside the directory while other requests arrive
+		a := h.ensureOpen(c, 0, name, accRead)
+		if a == nil || !step() {
+			return
+		}
+		other2 := fileNames[h.pick(3)]
+		if h.w.root.lookupLeaf(other2) == a.leaf {
+			other2 = "n1"
+		}
+		po := h.startGatedOpen(c, openParams{ownerKey: c.ownerKey(0), name: other2, fh: fhRoot, access: uint32(1 + h.pick(3)), how: howUnchecked, claim: claimNull, variant: "valid"})
+		if po == nil || !step() {
+			return
+		}
+		// NFSv4.0: a second request of the same open-owner has to
+		// wait for the transaction. Its sequence ID is out of order
+		// whenever it gets to run, so it changes nothing.
+		var second chan nfsv4.Nfsstat4
+		if c.ver == 0 {
+			second = make(chan nfsv4.Nfsstat4, 1)
+			args := &nfsv4.Compound4args{Tag: "second", Argarray: []nfsv4.NfsArgop4{
+				&nfsv4.NfsArgop4_OP_PUTFH{Opputfh: nfsv4.Putfh4args{Object: a.leaf.handle}},
+				&nfsv4.NfsArgop4_OP_CLOSE{Opclose: nfsv4.Close4args{Seqid: a.o.seqid + 7, OpenStateid: a.sid}},
+			}}
+			w := h.w
+			go func() {
+				out := w.call("CLOSE behind a parked OPEN", args)
+				if out.panicked {
+					second <- nfsv4.NFS4ERR_SERVERFAULT
+					return
+				}
+				second <- out.res.Status
+			}()
+			time.Sleep(2 * time.Millisecond)
+		}
+		switch h.pick(3) {
+		case 0:
+			if r := h.register(c, true); r != nil {
+				h.confirm(c, r, "reboot")
+				h.sit("open-in-flight-across-reregistration")
+			}
+		case 1:
+			jump(h.w, []*hist{h}, nil)
+			h.sit("open-in-flight-across-lease-expiry")
+		}
+		if !step() {
+			return
+		}
+		h.releaseGatedOpen(po)
+		if second != nil {
+			select {
+			case st := <-second:
+				h.note("%s CLOSE behind a parked OPEN (bad-owner-seqid) -> %s", c, stName(st))
+				h.expect(c, "CLOSE", "queued-behind-open-transaction", st, nfsv4.NFS4ERR_BAD_SEQID)
+				h.sit("request-queued-behind-open-owner-transaction")
+			case <-time.After(60 * time.Second):
+				h.r.Inconclusive("request queued behind a parked OPEN did not return within 60s of its release")
+				h.w.aborted.Store(true)
+			}
+		}
 	}
 }
 
